@@ -392,3 +392,7 @@ V("C20", "P-load-loop-untouched-shape", COLL, "        for fits_path, _hdu_index
 
 # F15 (open): the repaired form of the range reducer must be accepted silently
 V2("C14", "P-save-range-over-finite-pixels", [(IMG, "                    m = np.nanmin(arr)\n", "                    m = np.nanmin(np.where(np.isinf(arr), np.nan, arr))\n"), (IMG, "                    m = np.nanmax(arr)\n", "                    m = np.nanmax(np.where(np.isinf(arr), np.nan, arr))\n")], "HOLDS", "the two-line repair of F15")
+
+# F16 (open): the clause is silent once the workers' status is inspected between the last put and the feeder join
+V2("C19", "P-status-check-before-feeder-join", [(MTAN, "        from .par_util import join_workers, put_to_workers\n", "        from .par_util import check_workers, join_workers, put_to_workers\n"),
+                                               (MTAN, "        queue.close()\n        queue.join_thread()\n        done_event.set()\n        join_workers(workers)\n", "        check_workers(workers, done_event)\n        queue.close()\n        queue.join_thread()\n        done_event.set()\n        join_workers(workers)\n")], "HOLDS", "exercises the holds branch of the feeder-join clause (not a complete repair of F16)")
